@@ -127,6 +127,10 @@ def run_case(case, tier):
         grid = tuple(case["grid"])
     else:
         recs = sources.random_small_structure(rng, 80, 900)
+        if rng.random() < 0.2:
+            from .. import multiconf
+            recs, _d = multiconf.build(rng, base=recs)
+            classes.append("multi-conformation")
         grid = random_grid(rng)
     window = random_window(rng, grid)
     opts = ["-g"] + [repr(v) for v in grid] + ["-w"] + [repr(v) for v in window]
@@ -168,6 +172,13 @@ def run_case(case, tier):
         cls = "grid-end-point-lost" if [round(v, 2) for v in tph] == wantr[:-1] else "charge-table-off-grid"
         viol.append({"cls": cls, "msg": "charge table has %d rows ending at %r; grid %r has %d points ending at %r" % (
             len(tph), tph[-1] if tph else None, grid, len(want), want[-1])})
+    # the written charge table is the AVR charge profile (the curves the folding profile is linked to)
+    if len(parsed["charge"]) == len(cprof):
+        for (tp, tu, tf), (ap, au, af) in zip(parsed["charge"], cprof):
+            if abs(tu - au) > 0.005 + 1e-9 or abs(tf - af) > 0.005 + 1e-9:
+                viol.append({"cls": "written-charge-table-not-the-linked-curves", "msg": "pH %.2f: written unfolded/folded %.2f/%.2f, "
+                             "charge curves of the reported (AVR) profile %.4f/%.4f" % (tp, tu, tf, au, af)})
+                break
     # (iv) window rows
     lo, hi, ws = window
     printed = parsed["folding"]
